@@ -2905,6 +2905,11 @@ func (db *DB) Import(ctx context.Context, r io.Reader) error {
 	}
 	defer guard.Unlock()
 
+	// The node may have lost its primary status while waiting for the lock.
+	if !db.store.IsPrimary() {
+		return ErrReadOnlyReplica
+	}
+
 	// Roll back the journal & checkpoint the WAL, if they exist, so that the
 	// database file matches the current position before the import is written.
 	// Discarding them instead would lose committed WAL frames (or leave a
